@@ -98,13 +98,7 @@ func pumpGoroutines() int {
 
 func runC13(t *testing.T, sc *C13Scn) (res c13Result) {
 	l := simkit.NewLog()
-	defer func() {
-		if p := recover(); p != nil {
-			res.BubbleErr = fmt.Sprint(p)
-			res.Evs = l.Events()
-		}
-	}()
-	synctest.Test(t, func(t *testing.T) {
+	res.BubbleErr = simkit.Bubble(t, func(t *testing.T) {
 		c1, c2 := net.Pipe()
 		fc := &FaultConn{Conn: c1}
 		conn, peer, err := Connect(sc.LibIsClient, fc, c2)
@@ -201,6 +195,9 @@ func runC13(t *testing.T, sc *C13Scn) (res c13Result) {
 		time.Sleep(2 * time.Hour)
 		synctest.Wait()
 	})
+	if res.BubbleErr == simkit.RaceOrFailNow {
+		res.BubbleErr = "" // the race report is in the GORACE log; the scenario itself is evaluated as usual
+	}
 	res.Evs = l.Events()
 	return res
 }
